@@ -572,6 +572,7 @@ def _c17(tier):
         li = build.build_lib(cfg); exe = build.build_harness(li, "uni", ["uni.c"])
         jobs.append(("uni/fold/" + cfg, [exe, "--prop", "C17", "--tier", tier, "--seed", str(seed()), "--cfg", cfg, "--mode", "fold"]))
         jobs.append(("uni/fcstr/" + cfg, [exe, "--prop", "C17", "--tier", tier, "--seed", str(seed()), "--cfg", cfg, "--mode", "fcstr"]))
+        jobs.append(("uni/normstr/" + cfg, [exe, "--prop", "C17", "--tier", tier, "--seed", str(seed()), "--cfg", cfg, "--mode", "normstr"]))
     run_workers(jobs, res, env=dict(os.environ, ASAN_OPTIONS="detect_leaks=0:abort_on_error=1"))
     # norm: differential against Python unicodedata through a pipe
     li = build.build_lib("plain"); exe = build.build_harness(li, "uni", ["uni.c"])
@@ -582,7 +583,7 @@ def _c17(tier):
     for cls, n in counters["classes"].items():
         res.distinct.add("norm|" + cls); res.count("norm_class_" + cls, n)
     res.samples = samples
-    res.evaluations = counters["driver_calls"] + res.counters.get("fold_cases", 0) + res.counters.get("fold_string_cases", 0)
+    res.evaluations = counters["driver_calls"] + res.counters.get("fold_cases", 0) + res.counters.get("fold_string_cases", 0) + res.counters.get("norm_string_cases", 0)
     return finish(res, tier, "exploration",
                   "normalisation: every code point assigned in Python's UCD %s alone (quick: BMP + every third supplementary) and followed by U+0301, every Hangul LxV and LVxT jamo sequence and "
                   "precomposed syllable, every canonical two-part decomposition (starter, mark) and with an extra mark, seeded random strings of <= 12 starters with 0-18 reordered combining "
